@@ -1,9 +1,11 @@
 import FgaVerif.Proofs.Weights
 import FgaVerif.Proofs.ReachComplete
+import FgaVerif.Proofs.WAssign
 /-! # C11 — wildcard sets are the reachable public types (specification side)
 
     As for C04, the real wildcard lists (nodes and edges, every forced traversal order) are compared
-    with `Spec.Weights.wildTargets`; the Go propagation through cycle resolution is not modelled.
+    with `Spec.Weights.wildTargets`; the Go propagation through cycle resolution is ported in
+    `Model/WAssign.lean` (one theorem about it below) but not proved to compute this set.
 
     Proved for every specification graph and node:
     * `wildcard_set_sound` — every type in the set is the type of a `T:*` restriction that is reachable
@@ -14,7 +16,17 @@ import FgaVerif.Proofs.ReachComplete
     * `wildcard_set_complete`, `wildcard_set_exact` — on a graph in which every referenced node exists
       (`Closed`; evaluated by the driver on every input) every reachable `T:*` is listed: the fuel of
       the search suffices (potential `|work| + |U| − |seen|` decreases by one per step), so the set is
-      **exactly** the public types reachable by following edges. -/
+      **exactly** the public types reachable by following edges.
+
+    And one clause about the **algorithm itself**: `Model/WAssign.lean` is a port of `AssignWeights`
+    with its wildcard propagation (`addWildcardToEdge`, `addEdgeWildcardsToNode`,
+    `calculateEdgeWildcards`, `addReferentialWildcardsTo{Edge,Node}`), compared with the real code on
+    every node and edge under every forced start order (stream `corr:wassign`).
+    * `algorithm_wildcard_lists_no_duplicates` — for every graph and every start order, if the
+      assignment succeeds then no wildcard list of a node or of an edge contains a duplicate.  It is an
+      invariant of the whole computation (`Proofs/WAssign.lean`: every writer copies a duplicate-free
+      list or appends an element it has just found absent; the depth-first recursion, cycle
+      resolution and the dependency fix-ups preserve it), not a property of the final sets only. -/
 namespace FgaVerif.Props.C11
 open FgaVerif.Spec.Weights
 
@@ -41,6 +53,15 @@ theorem wildcard_set_exact (g : SGraph) (hc : Closed g) (n t : String) :
     t ∈ wildTargets g n ↔ ∃ x, Reach g true n x ∧ HasWildcardEdge g x t :=
   ⟨wildcard_set_sound g n t, fun ⟨x, hr, hw⟩ => wildcard_set_complete g hc n t x hr hw⟩
 
+/-- the ported algorithm never produces a wildcard list with a duplicate -/
+theorem algorithm_wildcard_lists_no_duplicates (g : FgaVerif.Model.WGraph.G) (order : List String)
+    (st : FgaVerif.Model.WAssign.AState) (h : FgaVerif.Model.WAssign.assignWeights g order = .ok st) :
+    (∀ n, (FgaVerif.Model.WAssign.aget n st.nodeWild).Nodup) ∧
+    (∀ r, (FgaVerif.Model.WAssign.aget r st.edgeWild).Nodup) := by
+  have hinv := FgaVerif.Model.WAssign.assignWeights_wildNodup g order st h
+  exact ⟨fun n => FgaVerif.Model.WAssign.aget_allP FgaVerif.Model.WAssign.nodup_default hinv.node n,
+    fun r => FgaVerif.Model.WAssign.aget_allP FgaVerif.Model.WAssign.nodup_default hinv.edge r⟩
+
 /-! ### non-vacuity: a public restriction behind a tuple cycle -/
 def demo : SGraph := [
   ⟨"doc#a", .rel, [⟨.node "doc#b", true, ""⟩]⟩,
@@ -48,5 +69,22 @@ def demo : SGraph := [
   ⟨"doc#c", .rel, [⟨.type "user", true, ""⟩]⟩]
 
 example : wildTargets demo "doc#a" = ["bot", "user"] ∧ wildTargets demo "doc#c" = [] := by decide
+
+/-! ### non-vacuity for the algorithm: `define a: [user:*, doc#b]`, `define b: [bot:*, doc#a]` — a tuple
+    cycle with a public restriction on each side; started from `doc#b`, the assignment succeeds and both
+    nodes end with both public types, each once -/
+open FgaVerif.Model.WGraph FgaVerif.Model.WAssign in
+def algoDemo : G := {
+  nodes := [⟨"doc#a", "doc#a", .typeAndRelation⟩, ⟨"user:*", "user:*", .wildcard⟩,
+            ⟨"doc#b", "doc#b", .typeAndRelation⟩, ⟨"bot:*", "bot:*", .wildcard⟩],
+  edges := [("doc#a", [⟨"doc#a", "user:*", .direct, "", ["none"]⟩, ⟨"doc#a", "doc#b", .direct, "", ["none"]⟩]),
+            ("doc#b", [⟨"doc#b", "bot:*", .direct, "", ["none"]⟩, ⟨"doc#b", "doc#a", .direct, "", ["none"]⟩])] }
+
+open FgaVerif.Model.WGraph FgaVerif.Model.WAssign in
+example : (match assignWeights algoDemo ["doc#b"] with
+    | .ok st => (aget "doc#a" st.nodeW, aget "doc#a" st.nodeWild, aget "doc#b" st.nodeWild)
+    | .error _ => ([], [], [])) =
+    ([("bot", FgaVerif.Model.WAssign.infinite), ("user", FgaVerif.Model.WAssign.infinite)], ["user", "bot"], ["bot", "user"]) := by
+  decide +kernel
 
 end FgaVerif.Props.C11
